@@ -755,8 +755,9 @@ WHAT = {
                     "the cached context made of the old content",
     "aba_load": "the certificate directory link flipped away and back while one context is being loaded: both metadata "
                 "hashes agree and a context mixing two generations is installed",
-    "load_errno": "a credential 'file' that can be stat'ed but not read (a directory) makes xcm_connect/xcm_server fail with the "
-                  "errno of the read (EISDIR) instead of EPROTO",
+    "load_errno": "a credential file that can be stat'ed but not read (a directory in its place, or a file removed between the "
+                  "hash and the read) makes xcm_connect/xcm_server fail with the errno of fopen/fread (EISDIR, ENOENT) instead of "
+                  "EPROTO",
     "value_concat": "two by-value configurations whose items differ but whose bytes strung together coincide share one "
                     "context (the key has no separators between items)",
 }
